@@ -44,7 +44,9 @@ def gen_sim_case(rng):
             d["simclp"] = []
         else:
             sc = d.get("scale", 1)
-            d["simclp"] = [[clpval.setdefault((d["group"], x, l), sc * rng.randint(0, 3)) for l in labs] for x in d["axis"]]
+            # the generating clp is a function of the ALIGNED point: with an alignment tolerance neighbouring coordinates of different
+            # datasets are one point, so the truth then does not vary along the axis (found by seeds 7 and 123: InvZeroAtTruth failed in TLC)
+            d["simclp"] = [[clpval.setdefault((d["group"], None if c.get("tol") else x, l), sc * rng.randint(0, 3)) for l in labs] for x in d["axis"]]
         d["data"] = [[0 for _ in d["axis"]] for _ in d["data"]]
     return c
 
